@@ -366,6 +366,27 @@ pub fn run(dir: &str) {
                     }
                 }
                 // the node draws the next history id the way a leader does (ConfigAsyncCmd::Add -> next_state)
+                // membership and node addresses as the node's raft storage reports them
+                ["mem"] => {
+                    use async_raft_ext::RaftStorage;
+                    let m = match store.get_membership_config().await {
+                        Ok(m) => {
+                            let mut v: Vec<u64> = m.members.iter().cloned().collect();
+                            v.sort();
+                            let mut w: Vec<u64> = m.members_after_consensus.map(|s| s.into_iter().collect()).unwrap_or_default();
+                            w.sort();
+                            format!("{:?}/{:?}", v, w).replace(' ', "")
+                        }
+                        Err(_) => "err".to_string(),
+                    };
+                    let mut addrs = vec![];
+                    for id in 1..=20u64 {
+                        if let Ok(a) = store.get_target_addr(id).await {
+                            addrs.push(format!("{}={}", id, a));
+                        }
+                    }
+                    format!("mem {};{}", m, addrs.join("+"))
+                }
                 ["draw"] => match config.send(rnacos::verif_hooks::VerifConfigSeq { draw: true }).await {
                     Ok((id, mark)) => format!("drawn {} {}", id, mark.map(|m| m.to_string()).unwrap_or("-".to_string())),
                     Err(_) => "err".to_string(),
